@@ -282,7 +282,16 @@ enum StreamShape {
     Global,
     /// one generator per thread, identically seeded
     PerThread,
+    /// one generator per thread, the stream determined by the order in which threads first draw ("rank")
+    ByRank,
     Unknown,
+}
+
+/// reference streams by rank for a workload: a token-passing run with as many threads, the first 8 ranks
+/// drawing `long` priorities and the others `short`
+fn rank_reference(threads: usize, long: u32, short: u32) -> Result<Vec<Vec<u32>>, String> {
+    let spec = Spec { threads: (0..threads).map(|r| (if r < 8 { long } else { short }, 1, 0, 0)).collect(), churn: None };
+    Ok(run_child("sequential", &spec)?.threads.into_iter().map(|t| t.prios).collect())
 }
 
 fn judge(spec: &Spec, out: &ChildOut, shape_kind: StreamShape, s_proc: &[u32], s_thr: &[u32]) -> CaseResult {
@@ -312,6 +321,41 @@ fn judge(spec: &Spec, out: &ChildOut, shape_kind: StreamShape, s_proc: &[u32], s
     // (3) stream invariant
     match shape_kind {
         StreamShape::Unknown => st.label("stream-oracle-skipped"),
+        StreamShape::ByRank => {
+            let longest = out.threads.iter().map(|t| t.prios.len()).max().unwrap_or(0) as u32;
+            let shortest_needed = out.threads.iter().map(|t| t.prios.len()).filter(|&l| (l as u32) < longest).max().unwrap_or(0) as u32;
+            let refs = rank_reference(out.threads.len(), longest.max(1), shortest_needed.max(1).min(64)).map_err(|e| Violation::new("child-crash", e))?;
+            let mut by_first: std::collections::HashMap<(u32, u32), usize> = Default::default();
+            for (r, s) in refs.iter().enumerate() {
+                by_first.insert((s[0], *s.get(1).unwrap_or(&0)), r);
+            }
+            let mut used = vec![false; refs.len()];
+            for (i, t) in out.threads.iter().enumerate() {
+                if t.prios.is_empty() {
+                    continue;
+                }
+                let key = (t.prios[0], *t.prios.get(1).unwrap_or(&refs.iter().find(|s| s[0] == t.prios[0]).and_then(|s| s.get(1)).unwrap_or(&0)));
+                let r = match by_first.get(&key) {
+                    Some(&r) => r,
+                    None => {
+                        return Err(Violation::new(
+                            "stream/no-sequential-execution",
+                            format!("thread {} of {}: its priority stream (starting {:?}) is not the stream of any thread in a sequential execution", i, out.threads.len(), &t.prios[..t.prios.len().min(4)]),
+                        ))
+                    }
+                };
+                let m = t.prios.len().min(refs[r].len());
+                vensure!(
+                    t.prios[..m] == refs[r][..m],
+                    "stream/per-thread",
+                    "thread {}: its priority stream starts like the stream of the {}-th thread of a sequential execution but departs from it at draw {} (a draw was lost, repeated or taken from another thread's stream)",
+                    i, r, t.prios.iter().zip(refs[r].iter()).position(|(a, b)| a != b).unwrap_or(m)
+                );
+                vensure!(!used[r], "stream/duplicated-stream", "two threads observed the same priority stream (that of the {}-th thread of a sequential execution)", r);
+                used[r] = true;
+            }
+            st.label("stream-by-rank");
+        }
         StreamShape::PerThread => {
             for (i, t) in out.threads.iter().enumerate() {
                 // (a stream longer than the reference is compared on the reference's length)
@@ -386,8 +430,8 @@ fn main() {
          yield start gate; each workload runs in a fresh child process. Oracle: (1) every thread's observations and final content equal \
          its own Vec model, and renderings of its treap (TreePrinter, Debug) taken under concurrency equal consecutive and quiescent renderings, (2) heap order and height bound in every thread's treap, (3) history invariant on the per-thread priority \
          streams: either the union of all draws is exactly a prefix of the sequential stream and each thread's draws are a subsequence \
-         of it (one synchronised generator), or every thread sees the stream a lone thread sees (per-thread generators); which of the \
-         two applies is learnt from token-passing sequential runs of the library itself. Non-trivial = at least two threads' creation \
+         of it (one synchronised generator), or every thread sees the stream a lone thread sees (identical per-thread generators), or every thread sees the stream of a distinct thread of a token-passing sequential execution (per-thread generators seeded by order of first use); which of the \
+         three applies is learnt from token-passing sequential runs of the library itself. Non-trivial = at least two threads' creation \
          windows overlapped in time (timestamps used for this classification only). Distinct = distinct workload specs.",
     );
     ctx.assume("the OS scheduler is not controlled: interference is provoked (yield gate, real treap work, jitter), not enumerated; a race that never perturbs a draw is only visible to the ThreadSanitizer tier");
@@ -421,7 +465,11 @@ fn main() {
             } else if a[..] == s_thr[..1000] && b[..] == s_thr[..1000] {
                 StreamShape::PerThread
             } else {
-                StreamShape::Unknown
+                // per-thread streams that depend only on the order of first use? then a second sequential run repeats them
+                match run_child("sequential", &seq_spec) {
+                    Ok(o2) if o2.threads[0].prios == *a && o2.threads[1].prios == *b && a != b => StreamShape::ByRank,
+                    _ => StreamShape::Unknown,
+                }
             }
         }
         Err(_) => StreamShape::Unknown,
